@@ -162,7 +162,7 @@ def run(prog, rep, tier='quick'):
         'and reflection coefficient, starting from real(r[0]); (nesting) nothing computed in iteration k depends on the '
         'requested order; (scaling) a, k degree 0 and P degree 1 in r; (cholesky) the three back ends solve with matching '
         'triangular flags / L then L^H. NOT decided: that the recursions satisfy T x = z numerically, stability, |k|<1.')
-    rep.rule('order-update', 'in LEVINSON / HERMTOEP / TOEPLITZ no store A[i2] = f(.., A[i1], ..) follows a store to A[i1] in the same iteration (i1 != i2): the simultaneous order update must use the saved previous value')
+    rep.rule('order-update', 'in LEVINSON / HERMTOEP / TOEPLITZ no store A[i2] = f(.., A[i1], ..) follows a store to A[i1] in the same iteration (i1 != i2): the simultaneous order update must use the saved previous value; a sweep that stores both ends j and c-j of each pair has exactly floor((c+2)/2) passes for even and odd order')
     rep.rule('admission', 'no guard on (len(r), order) raises on the grid len(r)=2..9, order=1..len(r)-1')
     rep.rule('dtype', 'HERMTOEP / TOEPLITZ: no complex value is stored into a real buffer and the solution is complex when the matrix or the right-hand side is')
     rep.rule('charge', 'no operation in the recursion combines different modulation charges; outputs carry the charges of their representation')
@@ -268,6 +268,24 @@ def run(prog, rep, tier='quick'):
             rep.proved('order-update', g.qname, 'in-place stores', '%d array stores inside loops examined: none reads an element of the '
                        'same array that was overwritten earlier in the iteration' % cnt, loc(g.mod, g.node))
     rep.floor('order-update stores examined', n_ou, 10)
+    # ---------------- the two-ended sweep takes every coefficient pair exactly once
+    from ..orderupdate import sweep_check, show_lin
+    n_sw = 0
+    for mod_, fn_ in (('levinson', 'LEVINSON'), ('toeplitz', 'HERMTOEP'), ('toeplitz', 'TOEPLITZ')):
+        g = prog.func(mod_, fn_)
+        cnt, bad = sweep_check(g.node)
+        n_sw += cnt
+        for inner, kname, res in bad:
+            msg = '; '.join('%s = %s: %s passes, %s pairs' % (kname, '2q' if p_ == 0 else '2q+1', show_lin(res[p_][0]), show_lin(res[p_][1]))
+                            for p_ in (0, 1) if res[p_][0] != res[p_][1])
+            rep.violation('order-update', g.qname, 'sweep %s' % normalise(inner.iter)[:60], 'the in-place step-up stores both ends (j and its '
+                          'mirror) of each coefficient pair, so the sweep must take every pair exactly once -- %s: a pass too many updates the '
+                          'middle pair again with already-updated values, a pass short leaves a pair at the previous order' % msg,
+                          loc(g.mod, inner))
+        if cnt and not bad:
+            rep.proved('order-update', g.qname, 'two-ended sweeps', '%d sweep(s): trip count == number of (j, mirror) pairs for even and '
+                       'odd order' % cnt, loc(g.mod, g.node))
+    rep.analysed['two-ended sweeps'] = n_sw
     # ---------------- guards and recurrences
     ng = guard_rule(rep, prog, 'levinson', 'LEVINSON', 'P', allow='allow_singularity')
     ng += guard_rule(rep, prog, 'toeplitz', 'HERMTOEP', 'P')
